@@ -493,12 +493,108 @@ def r09f(ctx, run):
                           "a float-typed global initialised with an integer literal holds the integer's bit pattern, not the number" if float_ else "wrong width or byte order"))
 
 
+def r09g(ctx, run):
+    """weak-type replacement gives a new type only to expressions whose value is MADE at that type (literals, and the forms that pass the type on to
+    their parts).  The value of an index or member expression is read out of memory that was already given a type (`arr := .[1, 2, 3]` has elements of
+    the default integer type): retyping the node makes the code generator load the element at another width.  replace_weak_tys is evaluated from
+    source for leaf expressions of each kind, with a weak integer as the found type and a sized integer as the new type."""
+    import c07
+    from absint import Obj, Term, Variant, Panic, CannotEstablish, _Return
+    V = Variant
+    fn = ctx.syn.fn("GlobalInferenceCtx::replace_weak_tys", "hir_ty/src/globals.rs")
+    QI = c07.make_ty_interp(ctx)
+    weak_u, weak_f, u8, i64, f32 = V("Ty::UInt", {"0": 0}), V("Ty::Float", {"0": 0}), V("Ty::UInt", {"0": 8}), V("Ty::IInt", {"0": 64}), V("Ty::Float", {"0": 32})
+    E = Term("expr")
+
+    class Map:
+        def __init__(self, d):
+            self.d = d
+
+    class RI(QI):
+        def eval(self, e, env):
+            if e.get("k") == "path" and e["p"] in self.consts:
+                return self.consts[e["p"]]
+            if e.get("k") == "index":
+                base = canon(e["e"])
+                if base == "self.bodies":
+                    return env["__body"]
+                if base == "self.tys":
+                    return Obj("area", expr_tys=env["__types"], local_tys=Map({}))
+                b = self.eval(e["e"], env)
+                if isinstance(b, Map):
+                    return b.d[self.eval(e["i"], env)]
+            return super().eval(e, env)
+
+        def default_method(self, recv, m, args, e):
+            if isinstance(recv, Map):
+                if m == "entry":
+                    return Obj("entry", map=recv, key=args[0])
+                if m == "insert":
+                    recv.d[args[0]] = args[1]
+                    return None
+                if m == "get":
+                    return recv.d.get(args[0])
+            if isinstance(recv, Obj) and recv.name == "entry" and m == "or_insert":
+                return recv.fields["map"].d.setdefault(recv.fields["key"], args[0])
+            if isinstance(recv, Obj) and recv.name == "self" and m in ("replace_weak_tys", "reinfer_expr"):
+                return True
+            if m == "push" and isinstance(recv, list):
+                recv.append(args[0])
+                return None
+            return super().default_method(recv, m, args, e)
+    kinds = [
+        ("integer literal", V("Expr::IntLiteral", {"0": 5}), weak_u, u8, "made"), ("integer literal at i64", V("Expr::IntLiteral", {"0": 5}), weak_u, i64, "made"),
+        ("float literal", V("Expr::FloatLiteral", {"0": Term("f")}), weak_f, f32, "made"),
+        ("index expression `arr[i]`", V("Expr::Index", {"source": Term("arr"), "index": Term("i")}), weak_u, u8, "read"),
+        ("index expression `arr[i]` at i64", V("Expr::Index", {"source": Term("arr"), "index": Term("i")}), weak_u, i64, "read"),
+        ("member expression `s.a`", V("Expr::Member", {"previous": Term("s"), "name": Term("a")}), weak_u, i64, "read"),
+    ]
+    n = 0
+    for desc, body, found, new, how in kinds:
+        types = Map({E: found})
+        it = RI(macros={"assert": lambda i, e, env: None, "debug": lambda i, e, env: None})
+        for w_ in (8, 16, 32, 64, 128):
+            it.consts["u%d::MAX" % w_] = 2 ** w_ - 1
+            it.consts["i%d::MAX" % w_] = 2 ** (w_ - 1) - 1
+        it.consts["usize::MAX"], it.consts["isize::MAX"] = 2 ** 64 - 1, 2 ** 63 - 1
+        env = {"self": Obj("self", loc=Term("loc"), diagnostics=[], bodies=Term("bodies"), tys=Term("tys"), interner=Term("interner")), fn.param_names()[1]: E, fn.param_names()[2]: new,
+               "__body": body, "__types": types}
+        try:
+            try:
+                res = it.run_fn(fn, env)
+            except _Return as r:
+                res = r.v
+        except (Panic, CannotEstablish) as c:
+            run.finding(fn.qual, "retype:" + desc, fn.file, fn.ln, "cannot establish what replace_weak_tys records for a %s: %s" % (desc, getattr(c, "what", c)))
+            continue
+        n += 1
+        rec = types.d.get(E)
+        if how == "made":
+            run.check(rec == new, fn.site(), "%s: %s -> recorded %s" % (desc, found.last, rec.last if isinstance(rec, Variant) else rec), fn.qual, "retype:" + desc, fn.file, fn.ln,
+                      "a %s of weak type is not given the requested type (recorded %r)" % (desc, rec))
+        else:
+            run.check(rec == found and res is not True, fn.site(), "%s keeps the type of the memory it reads" % desc, fn.qual, "retype:" + desc, fn.file, fn.ln,
+                      "a %s whose elements have the weak type %s is recorded at the type %s%s: the value is read out of memory that keeps the default type of the weak "
+                      "elements, so the code generator loads it at another width (`arr := .[10, 20, 30]; x : u8 = arr[1];` reads 0, an i64 reads past the array)"
+                      % (desc, c07_name(found), c07_name(rec), " and reported as replaced" if res is True else ""))
+    if n < 5:
+        raise LookupError("replace_weak_tys evaluations: %d" % n)
+
+
+def c07_name(v):
+    if isinstance(v, Variant):
+        w = v.payload.get("0") if v.payload else None
+        return {"UInt": "{uint}" if w == 0 else "u%s" % w, "IInt": "{int}" if w == 0 else "i%s" % w, "Float": "{float}" if w == 0 else "f%s" % w}.get(v.last, v.last)
+    return repr(v)
+
+
 def rules(ctx):
     return [
         Rule("R09.a", "escape tables of string and char literals equal the reference table and each other; default arm rejects", 27, r09a),
         Rule("R09.b", "integer literal lowering uses only checked parsing/arithmetic; every failure reports OutOfRangeIntLiteral", 12, r09b),
         Rule("R09.c", "get_max_int_size(T) = min(max(T), u64::MAX) for every width; users reject exactly values > max, tested against the type the literal is given", 17, r09c),
         Rule("R09.e", "weak-type replacement reaches the literals inside every transparent expression form unconditionally", 18, r09e),
+        Rule("R09.g", "weak-type replacement retypes only expressions whose value is made at that type; index/member expressions keep the type of the memory they read", 5, r09g),
         Rule("R09.f", "code generation materialises the written value: iconst/fNNconst/data object built from n without sign extension or truncation; constant data at the type's width", 20, r09f),
         Rule("R09.d", "weak literal widening thresholds do not exceed the maximum of the type codegen gives weak ints", 6, r09d),
     ]
